@@ -36,6 +36,15 @@ func RoundedCone(a, b vector3.Float64, r1, r2 float64) sample.Vec3ToFloat {
 	a2 := l2 - rrr
 	il2 := 1.0 / l2
 
+	// One ball contains the other (or they touch from the inside): there is no
+	// cone between them and the shape is just the larger ball.
+	if a2 <= 0 {
+		if r1 >= r2 {
+			return Sphere(a, r1)
+		}
+		return Sphere(b, r2)
+	}
+
 	return func(v vector3.Float64) float64 {
 		// sampling dependant computations
 		pa := v.Sub(a)
